@@ -220,14 +220,15 @@ pub fn c13<T: Px>(thorough: bool) -> Vec<CellDef> {
     let (n, es) = (T::N, T::ES);
     for op in 0..4u8 {
         let mut sps = pairs_sp::<T>(thorough);
-        if n >= 12 && (thorough || n % 4 == 0 || n >= 29) {
+        if n >= 12 {
+            let main_w = thorough || n % 4 == 0 || n >= 29; // the other widths get a smaller operand list in the quick tier
             // the second operand solved so that the exact result sits on / next to a rounding boundary (deep.rs)
-            let al = std::sync::Arc::new(crate::deep::operand_list(n, es, if thorough { 100 } else { 10 }));
+            let al = std::sync::Arc::new(crate::deep::operand_list(n, es, if thorough { 100 } else if main_w { 10 } else { 2 }));
             sps.push(("#solve".into(), crate::deep::bin_solve_space(n, es, op, al, 3, "fraction shapes + unstructured fractions at a menu of scales")));
             if op == 2 {
                 let mut l: Vec<u128> = vec![];
                 let m = if n == 32 { u32::MAX } else { (1u32 << n) - 1 };
-                for (a, b) in crate::deep::near_tie_pairs(n, es, if thorough { 400 } else { 150 }, 5, if thorough { 40 } else { 6 }) {
+                for (a, b) in crate::deep::near_tie_pairs(n, es, if thorough { 400 } else if main_w { 150 } else { 60 }, 5, if thorough { 40 } else if main_w { 6 } else { 1 }) {
                     l.push((a as u128) << 32 | b as u128);
                     l.push((b as u128) << 32 | a as u128);
                     l.push(((a.wrapping_neg() & m) as u128) << 32 | b as u128);
@@ -273,12 +274,18 @@ pub fn c13<T: Px>(thorough: bool) -> Vec<CellDef> {
             }));
         }
     }
-    if n >= 12 && (n % 4 == 0 || n == 27 || n >= 30 || thorough) {
+    if n >= 12 {
+        let main_w = n % 4 == 0 || n == 27 || n >= 30 || thorough;
         // forced collisions: products with a sparse tail against addends at every alignment (see deep.rs)
         let maxnf = n - 3 - es;
         let z = if thorough { maxnf / 2 + 2 } else if n >= 26 { maxnf * 4 / 5 + 2 } else { maxnf * 2 / 3 + 2 };
         let rich = thorough || n >= 26;
-        let pairs = std::sync::Arc::new(crate::deep::pairs_structured(n, es, z, rich));
+        let mut pr = crate::deep::pairs_structured(n, es, z, rich);
+        if !main_w {
+            // secondary widths in the quick tier: every 8th pair
+            pr = pr.into_iter().step_by(8).collect();
+        }
+        let pairs = std::sync::Arc::new(pr);
         let what = format!("a in [1,2) with a {maxnf}-bit fraction shape x b at every scale and shape, exact product with a sparse tail of length >= {z}");
         for kind in 0..3u8 {
             v.push(CellDef::new("C13", format!("{}/{}#deep", T::name(), KINDS[kind as usize]), crate::deep::space(n, es, pairs.clone(), maxnf as i32 + 7, rich, &what), move |k| {
@@ -297,14 +304,15 @@ pub fn c13<T: Px>(thorough: bool) -> Vec<CellDef> {
             }));
         }
     }
-    if n >= 12 && (n % 4 == 0 || n >= 30 || thorough) {
+    if n >= 12 {
+        let main_w = n % 4 == 0 || n >= 30 || thorough;
         // forced collisions: the addend solved so that a*b+c is within one unit of c's last place of a rounding
         // boundary, for products that are themselves unusually close to a boundary (see deep.rs)
         let maxnf = n - 3 - es;
         let zz = 5 + maxnf / 8;
-        let pr = crate::deep::near_tie_pairs(n, es, if thorough { 500 } else { 200 }, zz, if thorough { 8 } else if n == 32 { 4 } else if n >= 30 { 2 } else { 1 });
+        let pr = crate::deep::near_tie_pairs(n, es, if thorough { 500 } else if main_w { 200 } else { 80 }, zz, if thorough { 8 } else if n == 32 { 4 } else if n >= 30 { 2 } else { 1 });
         let mut pr = pr;
-        pr.extend(crate::deep::unstructured_pairs(n, es, if thorough { 8_000 } else if n >= 30 { 1_500 } else { 500 }));
+        pr.extend(crate::deep::unstructured_pairs(n, es, if thorough { 8_000 } else if n >= 30 { 1_500 } else if main_w { 500 } else { 100 }));
         let pr_len = pr.len();
         let pairs = std::sync::Arc::new(pr);
         let what = format!("pairs (fraction shapes + unstructured fractions at a menu of scales, complete cross product) whose exact product is within 2^-{zz} guard-bit units of a rounding boundary, stratified by product scale and distance ({} pairs)", pr_len);
